@@ -18,16 +18,16 @@ pub const CONFIGS: &[&str] = &["builtin", "symbolic", "words"];
 /// extra operators registered per configuration: (name, kind)
 pub fn config_ops(cfg: &str) -> Vec<(&'static str, &'static str)> {
     match cfg {
-        "symbolic" => vec![("+++", "prefix"), ("**", "infix"), ("<=>", "infix"), ("=~", "infix"), ("!!", "postfix"), ("?:", "infix"), (":=", "infix"), ("??", "postfix")],
-        "words" => vec![("hi", "infix"), ("is_a", "infix"), ("~=", "infix"), ("is-not", "infix"), ("neg", "prefix"), ("§", "postfix"), ("startsWithAnyCaseInsensitive_v2", "infix")],
+        "symbolic" => vec![("+++", "prefix"), ("**", "infix"), ("<=>", "infix"), ("=~", "infix"), ("!!", "postfix"), ("?:", "infix"), (":=", "infix"), ("??", "postfix"), ("?.", "infix"), ("+.", "postfix"), ("\u{4e0d}\u{5305}\u{542b}\u{4e8e}", "infix")],
+        "words" => vec![("hi", "infix"), ("is_a", "infix"), ("~=", "infix"), ("is-not", "infix"), ("neg", "prefix"), ("§", "postfix"), ("startsWithAnyCaseInsensitive_v2", "infix"), ("gr\u{f6}\u{df}er", "infix")],
         _ => vec![],
     }
 }
 
 pub fn extra_fragments(cfg: &str) -> Vec<&'static str> {
     match cfg {
-        "symbolic" => vec!["~"],
-        "words" => vec!["hi", "is_a", "~", "is", "neg", "§", "startsWithAnyCaseInsensitive_v2", "startsWithAnyCaseInsensitive_v"],
+        "symbolic" => vec!["~", "\u{4e0d}\u{5305}\u{542b}\u{4e8e}", "\u{4e0d}"],
+        "words" => vec!["hi", "is_a", "~", "is", "neg", "§", "startsWithAnyCaseInsensitive_v2", "startsWithAnyCaseInsensitive_v", "gr\u{f6}\u{df}er", "gr\u{f6}"],
         _ => vec![],
     }
 }
